@@ -232,6 +232,12 @@ def t_result_type(ctx):
     classes = [('RA', RA, int), ('RB', RB, None), ('RC', RC, int), ('RD', RD, str), ('RE', RE, list[int]), ('RF', RF, dict[str, int]),
                ('RG', RG, int), ('RH', RH, str)]
     perms = list(itertools.permutations(range(len(classes))))
+    if len(perms) > 2000:
+        # 8! orders would take half an hour of class creation: a fixed pseudo-random subset of 1500 orders (plus the identity and its
+        # reverse); every parent-before-child / child-before-parent combination is covered by the flag mode anyway
+        import random
+        rng = random.Random(12)
+        perms = [perms[0], perms[-1]] + rng.sample(perms[1:-1], 1498)
     pi = int(ctx.int('order', 0, len(perms) - 1)) if ctx.cfg.get('all_orders') else None
     if pi is None:
         # the orders that matter are which of (parent, child) is instantiated first: fork over a 6-bit choice
